@@ -2,12 +2,69 @@
 
 ENGINES = [
     {"name": "hypothesis", "path": "/verif/vp", "serves_properties": [], "kind_free_text": "property-based testing (Hypothesis 6.168) over plain-data specs; failures shrunk and saved as replay files"},
-    {"name": "hypothesis-stateful", "path": "/verif/vp", "serves_properties": ["C24"], "kind_free_text": "Hypothesis RuleBasedStateMachine histories checked against an executable model"},
+    {"name": "hypothesis-stateful", "path": "/verif/vp", "serves_properties": ["C20", "C24", "C25"], "kind_free_text": "Hypothesis RuleBasedStateMachine histories checked step by step against an executable model"},
+    {"name": "sqlite-surrogate", "path": "/verif/vp/engines.py", "serves_properties": ["C02", "C04", "C08", "C14", "C16"], "kind_free_text": "PostgreSQL-dialect SQL text executed on SQLite 3.40 (stand-in: no PostgreSQL server exists in the sandbox)"},
 ]
 
 _PENDING = "check not built yet in this round (the technique applies; see DESIGN.md section 3)"
 
+_GEN = "random well-typed operator DAGs from vp.gen (1-2 tables, 0-7 rows with nulls/duplicates/ties, <=8 operator nodes incl. joins, concat, windows, projects, record maps, shared sub-pipelines)"
+
 CHECKS = {
+    "C01": {
+        "technique": "differential property-based testing: Pandas executor vs to_sql()+SQLite on generated operator DAGs and tables",
+        "text": f"Differential exploration: {_GEN} are evaluated by the Pandas executor and by the generated SQL on a real in-memory SQLite; column sets, row multisets (float tolerance, null==NaN) and the key sequence after a final order_rows must agree. Regions of two recorded open findings (null join keys on Pandas, FULL join on differently named keys on SQLite) are excluded by construction and counted. Exploration only.",
+        "note": "Trusted: vp.cmp comparator, vp.schema type/nullability tracker (decides which columns are zero/null tolerant), SQLite 3.40 as SQL engine. Method fragment is the 'core' list of DESIGN.md 2.2 (no integer / // %, no comparisons on nullable operands: documented conventions).",
+    },
+    "C02": {
+        "engine": "sqlite-surrogate",
+        "technique": "differential property-based testing: Pandas vs PostgreSQL-dialect SQL executed on a SQLite surrogate (with and without CTE elimination)",
+        "text": "PARTIAL. No PostgreSQL server exists in the sandbox, so the PostgreSQL dialect's SQL text (native RIGHT/FULL JOIN, WITH, CTE elimination, PostgreSQL formatters) is executed on SQLite 3.40 with shims for LN/STDDEV_SAMP/VAR_SAMP and compared with Pandas as in C01. This decides the translation half of the property; it does not decide engine-dependent PostgreSQL semantics. Surrogate refusals are counted inconclusive, never violations.",
+        "note": "Trusted: SQLite 3.40.1 as a stand-in executor for PostgreSQL-dialect text; everything C01 trusts. A real PostgreSQL server is required for the full property and is not available offline.",
+    },
+    "C03": {
+        "technique": "differential property-based testing: Polars executor (eager and lazy) vs Pandas executor on generated operator DAGs; exceptions allowed and bucketed",
+        "text": "Differential exploration on generated DAGs and tables: whenever the Polars executor (eager or lazy) returns, its column set and row multiset must equal the Pandas result, and eager must equal lazy; a raising Polars run is allowed by the property and is counted per (exception type, innermost data_algebra frame). Evidence reports the returned/raised ratio.",
+        "note": "Trusted: Pandas executor as reference side (its own recorded finding, null join keys, is closed by flag), vp.cmp, vp.schema. polars 1.44 lacks several old-API methods (cumsum...), so ordered windows mostly raise and are down-weighted, not removed.",
+    },
+    "C13": {
+        "technique": "grammar-based property testing: generated expression texts evaluated by the DSL vs CPython eval on a common domain, plus print/parse round trip",
+        "text": "Expression texts are built by construction from a typed, layered grammar mirroring Python's precedence levels (or/and/not/comparisons incl. chains/+ -/* / // %/unary/**/atoms, redundant parentheses, whitespace, method calls); each accepted text is evaluated through extend() on an 8-row frame and compared row-wise with CPython's eval wherever both define the operators identically; the parsed tree must survive print -> parse with is_equal and identical text.",
+        "note": "Trusted: CPython as reference evaluator; the common-domain filter (no division by zero, no complex/non-finite intermediates, logical connectives on bools only). Parser rejections are allowed and counted.",
+    },
+    "C04": {
+        "engine": "sqlite-surrogate",
+        "technique": "metamorphic property-based testing: the same generated pipeline under every SQLFormatOptions / extend-merge / dialect variant must return the same table",
+        "text": "Metamorphic exploration: generated DAGs biased to shared sub-pipelines under two consumers and chains of extends are translated under 16 (quick) or 288 (thorough) variants of use_with x use_cte_elim x annotate x initial_commas x sql_indent x allow_extend_merges x {SQLite, SQLite with CTE elimination enabled, PostgreSQL dialect}; every variant is executed on SQLite and compared with the un-optimised baseline of its dialect and across dialects; to_sql must also be repeatable. Evidence counts how often CTE elimination / SQL-level merging actually fired.",
+        "note": "Trusted: SQLite 3.40 as executor of all three dialect configurations (PostgreSQL text on a surrogate), vp.cmp. FULL joins on nullable keys are excluded while finding F14 (SQLite FULL join emulation) is open.",
+    },
+    "C20": {
+        "engine": "hypothesis-stateful",
+        "technique": "stateful model-based testing: RuleBasedStateMachine driving DataModelSpace and DBSpace(SQLite) against dict models",
+        "text": "Random histories (<=25 steps) of insert/execute/remove/describe/retrieve/keys with user keys, automatic keys and keys equal to the automatic names are applied to the in-memory and the SQLite-backed data space and to a dict model; after every step keys(), retrieve() and describe() must match the model, illegal operations must raise and change nothing, automatic keys must be fresh.",
+        "note": "Trusted: the dict model and the Pandas executor on a five-pipeline null-free family (used to compute expected execute() results). Copy semantics and exception types are not checked (undocumented).",
+    },
+    "C21": {
+        "technique": "model-based property testing of each solution helper against plain-Python references (scipy rankdata as second opinion) on Pandas and SQLite",
+        "text": "For rank_to_average, last_observed_carried_forward, replicate_rows_query and def_multi_column_map, generated valid inputs (ties, partitions, leading nulls, counts at power-of-two boundaries, unmapped values, empty tables) are evaluated on Pandas and on SQLite and compared with obviously-correct loop references. One open finding (single-column def_multi_column_map) is excluded by construction.",
+        "note": "Trusted: the reference loops in vp/checks/c21.py (rank cross-checked against scipy.stats.rankdata), vp.cmp, SQLite. Null order values / null partition keys / tied LOCF orders are outside the documented domain and not generated.",
+    },
+    "C22": {
+        "technique": "model-based property testing: generated specs x calls against an independent reference model of the documented schema contract",
+        "text": "Generated schema specifications (types, type sets, example values, sets of examples, nested column dicts, arg_specs=None) and calls (positional/keyword/omitted; scalars, numpy scalars, nulls, Pandas and Polars frames with missing/extra/wrong-typed/null/empty columns) are checked against a reference model: TypeError iff the model says violation, result identity otherwise, never an exception with the switch off.",
+        "note": "Trusted: the reference model in vp/checks/c22.py, derived from the docstrings/README. Subclass instances (bool for int, numpy.float64 for float) and nulls passed directly as arguments are left unjudged because the documentation is silent.",
+    },
+    "C23": {
+        "technique": "property-based testing against an independent union-find reference over generated edge lists (direct call and pipeline routes)",
+        "text": "Generated edge lists (ints near 2^62, strings, floats incl. inf, tuples, mixed int/float; random pairs, adversarially ordered chains/trees, self loops, repeats) are labelled by connected_components through lists, tuples, numpy arrays, Series and the Pandas pipeline methods, and compared with an independent union-find: label == least vertex of the component, same label iff same component.",
+        "note": "Trusted: the union-find reference in vp/checks/c23.py, run on the values as the code sees them after numpy/pandas conversion. Vertices are mutually orderable, no NaN/None.",
+    },
+    "C25": {
+        "engine": "hypothesis-stateful",
+        "technique": "model-based history testing of ResultCache against a dict model + metamorphic single-point variants of cache keys",
+        "text": "Histories of store/get/mutate-returned-copy/mutate-caller-frame over near-miss data maps are checked against a dict model (hit iff same dialect, SQL and content; returned frame equal; mutations never leak), and single-point variants of a data map (cell, column name, column order, row add/remove/permute, table name, one SQL character, dialect) must never share make_cache_key with the original.",
+        "note": "Trusted: the dict model and canonical-content classifier in vp/checks/c25.py. Pairs that differ only in dtype / None-vs-NaN / index labels are left unjudged (the property lists values, names, shape and row order only).",
+    },
     "C24": {
         "engine": "hypothesis-stateful",
         "technique": "stateful model-based testing (Hypothesis RuleBasedStateMachine vs list+set model) + stateless algebraic checks of ordered_* helpers",
